@@ -69,10 +69,15 @@ def case_2d(log, cplx):
         # d/dt exp == M exp
         Mexp = M @ realnp.array([[Cx(Cx.lift(e).re.novar(), Cx.lift(e).im.novar()) for e in row] for row in exp], dtype=object)
         goals.append(("d/dt exp_matrix_2D(tM) == M exp_matrix_2D(tM)", [_tan(exp[i, j]) - Cx.lift(Mexp[i, j]) for i in range(2) for j in range(2)]))
+        # the ODE fixes exp(tM) only up to a constant right factor; t = 0 is outside the function's domain (it divides by the
+        # eigenvalue gap), so the normalisation is stated spectrally: on each (verified) eigenprojector the result acts as the
+        # exponential of that eigenvalue -- on every path the code can take, whatever the size of the eigenvalues
+        # (with P_p P_m = 0, P_i^2 = P_i and P_p + P_m = 1 decided above this is the same as exp P_i == e^lambda_i P_i)
+        goals.append(("exp == e^lambda_p P_p + e^lambda_m P_m (spectral normalisation)", _each(exp - ep * Cx.lift(lp).exp() - em * Cx.lift(lm).exp())))
         for what, exprs in goals:
             for n, e in enumerate(exprs):
                 v = prove_zero(e, "%s [%s matrix, entry %d]" % (what, tag, n), timeout_ms=60000)
-                log.decide(v, key="exp_matrix_2D:%s" % what, replay=rp, sampler=_sampler)
+                log.decide(v, key="exp_matrix_2D:%s" % what, replay=rp, sampler=_sampler_2d)
         log.twin("domain")
         log.collect_ctx()
 
@@ -143,6 +148,18 @@ def case_eig_post(log, dim):
 
 
 # ---------------------------------------------------------------------------
+def _sampler_2d(rng):
+    """also matrices whose spectrum is shifted far to the left / right (still |entries| <= 50)"""
+    p = _sampler(rng)
+    k = rng.randrange(3)
+    if k:
+        sh = (-1 if k == 1 else 1) * rnd(rng, 30, 45) / p["t"]
+        for n in "ad":
+            p[n] += sh
+            p[n + "r"] += sh
+    return p
+
+
 def _sampler(rng):
     p = {"t": rnd(rng, 0.2, 2)}
     for n in "abcd":
@@ -172,8 +189,12 @@ def replay_2d(point, cplx):
     if abs(D) < 1e-3 or np.abs(M).max() > 50:
         return None
     exp, lp, lm, ep, em = ad.exp_matrix_2D(M)
-    ref = sl.expm(M)
-    tol = 1e-8 * max(1.0, np.abs(ref).max())
+    import mpmath as mp
+
+    mp.mp.dps = 40
+    rm = mp.expm(mp.matrix([[mp.mpc(M[i, j]) for j in range(2)] for i in range(2)]))
+    ref = np.array([[complex(rm[i, j]) for j in range(2)] for i in range(2)])
+    tol = 1e-8 * np.abs(ref).max()  # relative to the size of the exponential itself (it may be tiny)
     bad = []
     if np.abs(exp - ref).max() > tol:
         bad.append("exp differs from scipy.linalg.expm by %r" % np.abs(exp - ref).max())
